@@ -21,6 +21,9 @@ RULES = {
     'DESTROY-SUPER': 'every destroy() override reaches the base destroy() on every normal path',
     'EDIT-ATOMIC': 'connect/disconnect/destroy edit an edge in two steps; the hook that runs second contains no reachable explicit raise '
                    '(a refusal after the first end was already edited leaves the two ends disagreeing)',
+    'HOOKS-ONLY': 'the upstreams / downstreams containers are mutated only by the four base hooks of Stream and by the constructor; '
+                  'every other edit (connect, disconnect, destroy, nodes that detach themselves) goes through the overridable hooks, so '
+                  'that nodes with per-input state resize it and release what they held',
     'EMIT-CURRENT': 'Stream._emit iterates the current downstreams (a snapshot taken at emission time, not a cached list)',
 }
 
@@ -714,3 +717,57 @@ def check_edit_atomic(ctx, R, classes):
             R.ob('EDIT-ATOMIC', ctx.construct(fn), 'second-step-cannot-refuse', bad is None,
                  '%s runs second in Stream.%s (the other end of the edge was already edited) but can refuse with an explicit raise '
                  '[%s]: the two ends of the edge then disagree' % (h, entry, bad), ctx.where(fn, fn.node.lineno), None, n)
+
+
+# ----------------------------------------------------------------------------- HOOKS-ONLY
+def check_hooks_only(ctx, R, modules=('streamz.core', 'streamz.sinks', 'streamz.sources', 'streamz.dask')):
+    """who-may-write rule for the two edge containers: a direct mutation of `<x>.upstreams` / `<x>.downstreams` (method call
+    that changes it, item assignment / deletion, re-binding of the attribute) is allowed only in the base hooks
+    Stream._add_upstream/_remove_upstream/_add_downstream/_remove_downstream, in constructors, and in private helpers that are
+    referenced only from constructors.  A destroy()/disconnect() that edits the containers itself bypasses the overrides of
+    zip / combine_latest (per-input buffers are not dropped, their references never released)."""
+    M = ctx.model
+    MUT = {'upstreams': ('append', 'remove', 'insert', 'pop', 'clear', 'extend', 'reverse', 'sort'),
+           'downstreams': ('add', 'remove', 'discard', 'clear', 'pop', 'update')}
+
+    def ctor_only_function(fn, depth=0):
+        if fn.name == '__init__':
+            return True
+        if not fn.name.startswith('_') or fn.name.startswith('__') or depth > 3:
+            return False
+        refs = []
+        for g in M.all_funcs():
+            if not g.module.name.startswith('streamz') or '.tests' in g.module.name or g is fn:
+                continue
+            for n in own_nodes(g.node):
+                if (isinstance(n, ast.Attribute) and n.attr == fn.name) or (isinstance(n, ast.Name) and n.id == fn.name and fn.cls is None):
+                    refs.append(g)
+        return bool(refs) and all(ctor_only_function(g, depth + 1) for g in refs)
+
+    n_sites = 0
+    for fn in M.all_funcs():
+        if fn.module.name not in modules:
+            continue
+        sites = []
+        for n in own_nodes(fn.node):
+            if isinstance(n, ast.Call) and isinstance(n.func, ast.Attribute) and isinstance(n.func.value, ast.Attribute) \
+                    and n.func.value.attr in MUT and n.func.attr in MUT[n.func.value.attr]:
+                sites.append((n, '%s.%s()' % (n.func.value.attr, n.func.attr)))
+            if isinstance(n, (ast.Assign, ast.AugAssign, ast.Delete)):
+                tg = n.targets if isinstance(n, (ast.Assign, ast.Delete)) else [n.target]
+                for t in tg:
+                    base = t.value if isinstance(t, ast.Subscript) else t
+                    if isinstance(base, ast.Attribute) and base.attr in MUT and not (
+                            isinstance(t, ast.Attribute) and isinstance(t.value, ast.Name) and t.value.id == 'self' and fn.name == '__init__'):
+                        sites.append((n, '%s written' % base.attr))
+        if not sites:
+            continue
+        n_sites += len(sites)
+        base_hook = fn.cls is M.stream and fn.name in PRIMITIVES
+        ok = base_hook or ctor_only_function(fn)
+        R.ob('HOOKS-ONLY', ctx.construct(fn), 'edits-edge-containers', ok,
+             '%s edits the edge containers itself (%s) instead of going through _add/_remove_upstream/_downstream: the overrides '
+             'of nodes with per-input state (zip, combine_latest) are bypassed - buffers keep entries for inputs that are gone '
+             'and the references they hold are never released' % (fn.qual, ', '.join(sorted({d for _, d in sites}))),
+             ctx.where(fn, sites[0][0].lineno), None, len(sites))
+    R.count('edge_container_write_sites', n_sites)
